@@ -162,6 +162,7 @@ func first(b []byte) byte {
 func runWorkloads(r *kit.Run, tag string, pal func() *workloads.Palette, rounds int) {
 	for round := 0; round < rounds; round++ {
 		workloads.Gov(r, r.Rand(fmt.Sprintf("%s/gov/%d", tag, round)), pal())
+		workloads.GovLists(r, r.Rand(fmt.Sprintf("%s/govlists/%d", tag, round)), pal())
 		workloads.GenesisAll(r, r.Rand(fmt.Sprintf("%s/genesis/%d", tag, round)), pal())
 		for _, name := range []string{"eth", "bsc", "heco", "hsc", "pixie", "bytom", "msc"} {
 			workloads.EVM(r, r.Rand(fmt.Sprintf("%s/evm/%s/%d", tag, name, round)), pal(), name, uint64(2000+round))
@@ -175,6 +176,7 @@ func TestC17(t *testing.T) {
 	defer r.Finish()
 	r.Rule("pass 1: native workloads (governance, registry, relayers, vote imports, fees, signatures, EVM-family header sync and deposits, further routers as available) with default values; pass 2: the same workloads with chain ids / byte strings aimed at record-kind pairs where one kind name is a prefix of another; every ConcatKey call and every transaction write set is observed; ledger part: blocks with governance and scripted-contract transactions on a real ledger; distinct = (contract, kind, #parts) shapes")
 	r.Assume("keys not built through native/service/utils.ConcatKey are not seen by the unambiguity monitor")
+	r.Assume("accessor part: every parameter of the listed exported read accessors is taken to identify the record (chain id, height, hash, view, key); calls are made on an empty state")
 	r.Assume("the same key bytes reached from the same kind through a different split of the parameters is counted (same_kind_different_split) but not judged: it may be the same logical record")
 	r.Assume("'whatever the parameter values' is sampled: only collisions actually observed in executions count; shapes with a variable-length parameter followed by another parameter are listed as unreached ambiguities")
 	polyeth.VerifSealBypass = true
@@ -241,6 +243,7 @@ func TestC17(t *testing.T) {
 	r.Count("concat_key_events_pass2", m.events-ev1)
 
 	ledgerPart(t, r, m)
+	accessorPart(r)
 
 	// evidence
 	r.Count("distinct_storage_keys", len(m.byKey))
@@ -271,6 +274,7 @@ func TestC17(t *testing.T) {
 	r.Require("write_set_entries_checked", 300)
 	r.Require("key_shapes", 20)
 	r.Require("ledger_blocks_checked", 5)
+	r.Require("accessor_parameter_changes_key", 100)
 	ks := map[string][]string{}
 	for c, set := range m.kinds {
 		for k := range set {
